@@ -277,18 +277,13 @@ def run(job):
         prop = "C%02d" % k
         fired, err, allres = [], None, []
         try:
-            for rule in props.rules_for(prop):
-                res = rule(ctx)
-                for r in (res if isinstance(res, list) else [res]):
-                    allres.append(r)
-                    fired += [f.rule for f in r.findings]
-            g = unresolved_guard(ctx, allres)
-            if g:
-                err, fired = g, []
+            from rxsa.engine import run_rules
+            allres, err = run_rules(ctx, props.rules_for(prop))
+            fired = [] if err else [f.rule for r in allres for f in r.findings]
         except AnalysisError as e:
             err = str(e)
         except Exception as e:
-            err = "internal %r" % (e,)
+            err = "internal error: %r" % (e,)
         if err:
             out.append("%s=2" % prop)
         elif fired:
